@@ -575,9 +575,12 @@ namespace fixedmath
   [[ nodiscard, gnu::const, gnu::always_inline ]]
   constexpr fixed_t ceil( fixed_t value ) noexcept
     {
-    fixed_internal result { (value.v + 0xffff) & ~((1<<16ll)-1) };
-    if( value.v < result ) 
-      return as_fixed(result);
+    // value.v + 0xffff must not overflow the signed type
+    if( fixed_likely( value.v <= std::numeric_limits<fixed_t>::max().v - 0xffff ) )
+      {
+      // an integral argument is its own ceiling
+      return as_fixed( (value.v + 0xffff) & ~((1<<16ll)-1) );
+      }
     return quiet_NaN_result();
     }
   
